@@ -60,6 +60,12 @@ def bhex(p):
     return bid(p).hex()
 
 
+def gen_suffix():
+    """SHARED_GENERATION of the implementation (read from the code as it is now)"""
+    import bob.share
+    return bob.share.SHARED_GENERATION
+
+
 # ------------------------------------------------------------------ the patched world
 _tls = threading.local()
 
@@ -126,7 +132,7 @@ class Sim:
         return os.path.join(self.root, "ws", str(w), "workspace")
 
     def pkg_path(self, p):
-        h = bhex(p) + "-3"
+        h = bhex(p) + gen_suffix()
         return os.path.join(self.store, h[0:2], h[2:4], h[4:])
 
     def content(self, tok, size):
@@ -402,8 +408,8 @@ class Sim:
             for b in sorted(os.listdir(pa)):
                 pb = os.path.join(pa, b)
                 for r in sorted(os.listdir(pb)):
-                    if r.endswith("-3"):
-                        out[int(a + b + r[:-2], 16)] = os.path.join(pb, r)
+                    if r.endswith(gen_suffix()):
+                        out[int(a + b + r[:-len(gen_suffix())], 16)] = os.path.join(pb, r)
         return out
 
     def read_repo(self):
@@ -435,7 +441,7 @@ class Sim:
 
     def observe(self):
         vis = self.visible()
-        out = [len(vis)]
+        out = [1 if os.path.isdir(self.store) else 0, len(vis)]
         for p in sorted(vis):
             out += [p] + self.enc_dir(vis[p])
         repo = self.read_repo()
@@ -903,7 +909,11 @@ def run_impl(case, chooser=None, max_actions=700):
                 if code == 2 and op["k"] == "gc" and c.cfg["quota"] is None and op["used"] and op["unused"]:
                     out.setdefault("noted", []).append("TypeError repoSize <= None (clean --shared --used --all-unused without quota)")
                     continue      # outside the property text; reported, not flagged
-                sim.viol("share-spurious-failure:" + e["exc"].split(":")[0], "%s failed: %s" % (op["k"], e["exc"][:300]))
+                sig = "share-spurious-failure:" + e["exc"].split(":")[0]
+                if "Build error:" in e["exc"]:
+                    words = re.findall(r"[A-Za-z]+", e["exc"].split("Build error:", 1)[1])[:3]
+                    sig += ":" + "-".join(w.lower() for w in words)
+                sim.viol(sig, "%s failed: %s" % (op["k"], e["exc"][:300]))
                 out["errors"].append(e)
         out["violations"] = list(sim.violations)
         out["results"] = [list(c.results) for c in sim.procs]
@@ -1025,14 +1035,47 @@ def chooser_window(rng):
     return ch
 
 
+def chooser_script(script):
+    """hand-written schedules of the corpus: [["until", i, label] | ["op", i] | ["all", i] | ["n", i, k] | ["tick"]]
+    (interpreted against the running implementation, so that they stay meaningful when step counts change)"""
+    def ch(sim):
+        for cmd in script:
+            if cmd[0] == "tick":
+                yield TICK
+            elif cmd[0] == "until":
+                _, i, lab = cmd
+                k = 0
+                while not sim.procs[i].done and sim.procs[i].label != lab and k < 200 and not sim.procs[i].blocked:
+                    k += 1
+                    yield i
+            elif cmd[0] == "op":
+                _, i = cmd
+                n = len(sim.procs[i].results)
+                k = 0
+                while not sim.procs[i].done and len(sim.procs[i].results) == n and k < 200 and not sim.procs[i].blocked:
+                    k += 1
+                    yield i
+            elif cmd[0] == "all":
+                _, i = cmd
+                k = 0
+                while not sim.procs[i].done and k < 400 and not sim.procs[i].blocked:
+                    k += 1
+                    yield i
+            elif cmd[0] == "n":
+                for _ in range(cmd[2]):
+                    yield cmd[1]
+    return ch
+
+
 # ------------------------------------------------------------------ Coq literals
 PRE = """
 Definition mo (k : okind) (p w t sz e : N) (l u un d : bool) : op :=
   {| o_kind := k; o_pkg := p; o_ws := w; o_tree := t; o_size := sz; o_expect := e; o_link := l;
      o_used := u; o_unused := un; o_dry := d |}.
 Definition sch (l : list N) : list action := map (fun x => if x =? 99 then Tick else Step (N.to_nat x)) l.
-Definition run_case (c : list proc * list N) : list N := trace (init (fst c)) (sch (snd c)).
-Definition full_case (c : list proc * list N) : list (list N) := trace_full (init (fst c)) (sch (snd c)).
+Definition run_case (c : (bool * list proc) * list N) : list N := trace (init (fst (fst c)) (snd (fst c))) (sch (snd c)).
+Definition full_case (c : (bool * list proc) * list N) : list (list N) :=
+  trace_full (init (fst (fst c)) (snd (fst c))) (sch (snd c)).
 """
 
 
@@ -1054,8 +1097,8 @@ def coq_procs(procs):
         if procs else "(@nil proc)"
 
 
-def coq_case(procs, sched):
-    return "(%s, %s)" % (coq_procs(procs), L.lst([str(a) for a in sched]) if sched else "(@nil N)")
+def coq_case(procs, sched, store_exists=False):
+    return "((%s, %s), %s)" % (L.B(bool(store_exists)), coq_procs(procs), L.lst([str(a) for a in sched]) if sched else "(@nil N)")
 
 
 def nlist(xs):
@@ -1063,7 +1106,7 @@ def nlist(xs):
 
 
 # ------------------------------------------------------------------ shrinking a failing case
-def shrink(case, sig, budget=120):
+def shrink(case, sig, budget=40):
     """greedy: drop processes, operations, schedule actions while the same signature is reported"""
     def fails(c):
         try:
@@ -1136,7 +1179,7 @@ def stress_worker(store, root, idx, seed, nops, npk, quota, conn):
 
         def rename(src, dst, *a, **kw):
             r = o_rename(src, dst, *a, **kw)
-            if str(src).endswith("-3") and os.path.basename(os.path.dirname(str(dst))).startswith("tmp"):
+            if str(src).endswith(gen_suffix()) and os.path.basename(os.path.dirname(str(dst))).startswith("tmp"):
                 log.append(("collect", int(os.path.relpath(src, store).replace(os.sep, "")[:40], 16), state["forced"], 0,
                             time.monotonic_ns(), 0, 0))
             return r
@@ -1262,7 +1305,7 @@ def stress_run(ctx, seed):
                 if len(a) == 2:
                     for b in os.listdir(os.path.join(store, a)):
                         for r in os.listdir(os.path.join(store, a, b)):
-                            vis[a + b + r[:-2]] = os.path.join(store, a, b, r)
+                            vis[a + b + r[:-len(gen_suffix())]] = os.path.join(store, a, b, r)
             left = [x for x in os.listdir(store) if x.startswith("tmp")]
             if left:
                 viol.append(("share-temporary-directory-left", repr(left)))
@@ -1347,7 +1390,7 @@ def check_case(ctx, case, res, tag):
         ctx.nontrivial((json.dumps(case["procs"], sort_keys=True), tuple(res["sched"])))
     for n in res.get("noted", []):
         ctx.count("noted:" + n)
-    return (coq_case(case["procs"], res["sched"]), nlist(res["trace"]))
+    return (coq_case(case["procs"], res["sched"], case.get("store_exists")), nlist(res["trace"]))
 
 
 def report_violations(ctx, case, res, do_shrink=True):
@@ -1371,11 +1414,21 @@ def run(ctx):
                 "(random bursts, and 'window' schedules that park a process at a named control point while the others run); "
                 "a case is non-trivial when at least two processes and two operations are involved; distinct by (programs, schedule)")
     ctx.assumptions += [
-        "flock, rename and O_EXCL semantics of the kernel are modelled (shared/exclusive advisory locks, atomic rename), not verified",
-        "locks are a function of the control point (held exactly inside `with OpenLocked`); lock identity is by package id (pkg.json is only locked under the repository lock)",
+        "PROVED (Coq, all interleavings, any number of processes/packages/quotas, both initial store conditions): "
+        "visible_is_complete_and_hashed (+ truncated_pkg_json_has_writer), lock_protocol_excludes, installed_at_most_once, "
+        "repo_size_is_sum, auto_gc_only_unused_oldest_first_until_quota (bookkeeping of every gc run; sizes relative to the "
+        "running repoSize of that run), no_spurious_failure, never_collected_while_used_partial; never_collected_while_used "
+        "is REFUTED in the model by the F8 schedule (never_collected_while_used_refuted) and on the implementation by the corpus witnesses",
+        "NOT proved, only exercised by the scripted schedules and the free running processes: absence of deadlock "
+        "(oracle share-deadlock), that the model is the code (trace correspondence), real kernel interleavings",
+        "flock, rename and O_EXCL/O_APPEND-create semantics of the kernel are modelled (shared/exclusive advisory locks, atomic rename), not verified",
+        "locks are a function of the control point (held exactly inside `with OpenLocked`); lock identity is by package id "
+        "(pkg.json is only locked under the repository lock); buffered writes: truncate empties the file on disk, __exit__ flushes then unlocks",
         "the builder's symlink handling is played by the harness (remove workspace, os.symlink) as builder._useSharedPackage/_installSharedPackage do",
         "mtimes come from a logical clock imposed by the harness; real races are sampled by the free-running stress runs only",
         "copy of the tree into the temporary directory and hashDirectory are abstracted to 'hash at destination' (o_tree); tarfile/audit content not modelled",
+        "outside the property text, reported not flagged: gc(pruneUsed, pruneUnused) without quota raises TypeError (model: FType); "
+        "with --used the used candidates sort before the unused ones (model and code agree)",
     ]
     pt = Patches()
     pt.install()
@@ -1387,7 +1440,7 @@ def run(ctx):
         meta = []
         # ---- corpus first
         for c in load_corpus():
-            res = run_impl(c)
+            res = run_impl(c, chooser=chooser_script(c["script"])) if c.get("script") else run_impl(c)
             cases.append(check_case(ctx, c, res, "corpus"))
             meta.append((c, res))
             ctx.count("corpus:" + c["_file"])
@@ -1404,9 +1457,10 @@ def run(ctx):
                         ctx.violation(s, w, {"procs": c["procs"], "sched": res["sched"], "corpus": c["_file"]})
             else:
                 report_violations(ctx, c, res, do_shrink=False)
+        ctx.note("phase times: proofs+corpus done at %.0fs" % ctx.elapsed())
         # ---- generated schedules
         n = ctx.n(quick=360, thorough=6000)
-        t_budget = ctx.n(quick=75, thorough=1200)
+        t_budget = ctx.n(quick=90, thorough=1200)
         t0 = time.time()
         for k in range(n):
             if time.time() - t0 > t_budget:
@@ -1422,7 +1476,11 @@ def run(ctx):
             if k < 3:
                 ctx.sample({"procs": procs, "sched": res["sched"][:60], "results": res["results"]})
             if res["violations"]:
-                report_violations(ctx, case, res, do_shrink=len(ctx.violations) < 6)
+                known = {k["signature"] for k in ctx.known if k.get("status") == "known"}
+                seen = {v["signature"] for v in ctx.violations}
+                fresh = [s for s, _ in res["violations"] if s not in known and s not in seen]
+                report_violations(ctx, case, res, do_shrink=bool(fresh) and len(ctx.violations) < 6)
+        ctx.note("phase times: schedules generated at %.0fs" % ctx.elapsed())
         # ---- model side
         bad, log = coq.run_cases(ctx, ["BobV.C15.Model"], "run_case", "(eqb_list N.eqb)", cases, preamble=PRE,
                                  tag="lts", shard=60)
@@ -1436,11 +1494,12 @@ def run(ctx):
                 ctx.tie_broken("lts-correspondence", explain_mismatch(ctx, case, res))
             if bad:
                 ctx.count("model-mismatch", len(bad))
+        ctx.note("phase times: model evaluated at %.0fs" % ctx.elapsed())
         # ---- free running processes
         ns = ctx.n(quick=30, thorough=2200)
         ts = time.time()
         for k in range(ns):
-            if time.time() - ts > ctx.n(quick=30, thorough=1200):
+            if time.time() - ts > ctx.n(quick=20, thorough=1200):
                 ctx.note("stress stopped after %d runs (time budget)" % k)
                 break
             seed = rng.getrandbits(40)
@@ -1455,7 +1514,7 @@ def run(ctx):
 
 def explain_mismatch(ctx, case, res):
     """first action after which model and implementation differ, with both observations"""
-    terms = ["full_case %s" % coq_case(case["procs"], res["sched"])]
+    terms = ["full_case %s" % coq_case(case["procs"], res["sched"], case.get("store_exists"))]
     out, log = coq.eval_terms(ctx, ["BobV.C15.Model"], terms, preamble=PRE)
     d = {"procs": case["procs"], "sched": res["sched"], "store_exists": case.get("store_exists")}
     if not out:
@@ -1488,7 +1547,7 @@ def replay(ctx):
         return
     if "broken" in d:
         c = d["broken"][0]["detail"]
-    res = run_impl(c)
+    res = run_impl(c, chooser=chooser_script(c["script"])) if c.get("script") else run_impl(c)
     ctx.evaluated()
     print("programs:", json.dumps(c["procs"]))
     print("schedule:", res["sched"])
@@ -1499,7 +1558,7 @@ def replay(ctx):
     for sig, what in res["violations"]:
         ctx.violation(sig, what, c)
     bad, log = coq.run_cases(ctx, ["BobV.C15.Model"], "run_case", "(eqb_list N.eqb)",
-                             [(coq_case(c["procs"], res["sched"]), nlist(res["trace"]))], preamble=PRE, tag="rp")
+                             [(coq_case(c["procs"], res["sched"], c.get("store_exists")), nlist(res["trace"]))], preamble=PRE, tag="rp")
     if bad is None:
         ctx.tie_broken("C15 model evaluation failed", log)
     elif bad:
